@@ -391,7 +391,14 @@ class History:
         if kind == 'seq':
             n = rng.choice([2, 2, 2, 3, 3, 4, 1])
             kk = 'epic' if rng.random() < 0.25 else 'task'
-            return Req(k='seq', ids=[self.some_id(kk) for _ in range(n)])
+            pool = self.live(kk == 'epic')
+            if len(pool) >= n and rng.random() < 0.7:
+                ids = rng.sample(pool, n)                      # distinct live items of one kind (may still close a cycle)
+                if rng.random() < 0.15:
+                    ids[rng.randrange(n)] = self.some_id(kk)   # one adversarial id
+            else:
+                ids = [self.some_id(kk) for _ in range(n)]
+            return Req(k='seq', ids=ids)
         if kind == 'seqrm':
             edges = [(t['id'], d) for t in self.snap['tasks'] for d in t['deps']]
             if edges and rng.random() < 0.7:
